@@ -208,8 +208,63 @@ func run(seed int64, n int, dir string, _ []string) {
 	}
 	bin := os.Getenv("VERIF_CSVQ")
 
+	if bin != "" {
+		finalisationCorpus(o, bin, scratch)
+	}
 	for h := 0; h < n; h++ {
 		oneHistory(g, o, scratch, bin, h)
+	}
+}
+
+// finalisationCorpus: fixed transactions that hold created AND updated tables of several kinds, interrupted
+// at every point of the final COMMIT (each occurrence): the outcome is all or nothing — it equals the state of
+// the same program ended by EXIT, or the state of the undisturbed COMMIT.
+func finalisationCorpus(o *hc.Out, bin, scratch string) {
+	progs := []string{
+		"CREATE TABLE `n1.csv` (v); INSERT INTO `n1.csv` VALUES (1); UPDATE `f0.csv` SET v = v + 1; INSERT INTO `f1.csv` VALUES (9); ",
+		"UPDATE `f0.csv` SET v = v + 1; CREATE TABLE `n1.csv` (v); CREATE TABLE `n2.csv` (v); INSERT INTO `n2.csv` VALUES (1), (2); DELETE FROM `f1.csv` WHERE v = 1; ",
+		"INSERT INTO `f0.csv` VALUES (7); INSERT INTO `f1.csv` VALUES (8); INSERT INTO `f2.csv` VALUES (9); ",
+		"CREATE TABLE `n1.csv` (v); CREATE TABLE `n2.csv` (v); INSERT INTO `n1.csv` VALUES (3); ",
+	}
+	run := func(tag, prog string, env []string) string {
+		dx := filepath.Join(scratch, "c01-fin-"+tag)
+		_ = os.RemoveAll(dx)
+		_ = os.MkdirAll(dx, 0o755)
+		for p, xs := range [][]int{{1, 2, 3}, {1, 1}, {}} {
+			_ = os.WriteFile(filepath.Join(dx, fmt.Sprintf("f%d.csv", p)), fileBytes(xs), 0o644)
+		}
+		c := exec.Command(bin, "--repository", dx, "--quiet", prog)
+		c.Dir = dx
+		c.Env = append(append(os.Environ(), "HOME="+dx), env...)
+		_ = c.Run()
+		var st []string
+		ents, _ := os.ReadDir(dx)
+		for _, e := range ents {
+			b, _ := os.ReadFile(filepath.Join(dx, e.Name()))
+			st = append(st, e.Name()+"="+hc.Hex(string(b)))
+		}
+		_ = os.RemoveAll(dx)
+		return strings.Join(st, " ")
+	}
+	points := []string{"tx.commit.encode", "tx.commit.encoded", "tx.commit.create", "tx.commit.update", "commit.closefp", "commit.closetemp", "commit.rename", "commit.renamed", "cf.remove.lock", "cf.remove.temp"}
+	for pi, body := range progs {
+		rolledBack := run("exit", body+"EXIT;", nil)
+		committed := run("commit", body+"COMMIT;", nil)
+		if rolledBack == committed {
+			o.Law("finalisation_corpus_is_vacuous", body)
+		}
+		for _, pt := range points {
+			for k := 1; k <= 3; k++ {
+				spec := fmt.Sprintf("%s#%d:%s", pt, k, []string{"SIGINT", "SIGTERM"}[(pi+k)%2])
+				got := run("sig", body+"COMMIT;", []string{"VERIF_SIGNAL_AT=" + spec})
+				if got != rolledBack && got != committed {
+					o.Law("commit_not_atomic_under_signal", map[string]interface{}{"program": body + "COMMIT;", "signal_at": spec, "after_signal": got, "if_rolled_back": rolledBack, "if_committed": committed})
+				}
+				o.Eval()
+				o.Count("finalisation_point:" + pt)
+			}
+		}
+		o.NonTrivial(fmt.Sprintf("finalisation:%d", pi))
 	}
 }
 
@@ -592,6 +647,65 @@ func oneHistory(g *hc.Gen, o *hc.Out, scratch, bin string, h int) {
 				text.WriteString("EXIT;")
 			}
 			env := os.Environ()
+			// a fourth variant: the signal arrives in the FINALISATION of the final COMMIT (after every table has
+			// been encoded, while created files are made permanent and updated ones are swapped in): whatever
+			// csvq does with it, the result is all or nothing — it equals the state of the same program ended by
+			// EXIT instead of the COMMIT, or the state of the same program with the COMMIT undisturbed
+			if how == "interrupt-in-commit" && g.Intn(2) == 0 {
+				pt := g.Pick("tx.commit.encoded", "tx.commit.create", "tx.commit.update", "commit.closefp", "commit.closetemp", "commit.rename", "commit.renamed", "cf.remove.lock", "cf.remove.temp")
+				spec := fmt.Sprintf("%s#%d:%s", pt, 1+g.Intn(3), g.Pick("SIGINT", "SIGTERM"))
+				body := strings.TrimSuffix(text.String(), "COMMIT;")
+				runIn := func(tag, prog string, extraEnv []string) string {
+					dx := filepath.Join(scratch, fmt.Sprintf("c01-%d-%s", h, tag))
+					_ = os.RemoveAll(dx)
+					_ = os.MkdirAll(dx, 0o755)
+					for p := 0; p < nFiles; p++ {
+						if initial[p] != nil || init[p] == "e" {
+							_ = os.WriteFile(filepath.Join(dx, fmt.Sprintf("f%d.csv", p)), fileBytes(initial[p]), 0o644)
+						}
+					}
+					for _, f := range sourced {
+						if b, err := os.ReadFile(filepath.Join(d2, f)); err == nil {
+							_ = os.WriteFile(filepath.Join(dx, f), []byte(strings.ReplaceAll(string(b), d2, dx)), 0o644)
+						}
+					}
+					c := exec.Command(bin, "--repository", dx, "--quiet", strings.ReplaceAll(prog, d2, dx))
+					if stdinData != "" {
+						c.Stdin = strings.NewReader(stdinData)
+					}
+					c.Dir = dx
+					c.Env = append(append(os.Environ(), "HOME="+dx), extraEnv...)
+					_ = c.Run()
+					for _, f := range sourced {
+						_ = os.Remove(filepath.Join(dx, f))
+					}
+					st := diskState(dx, &tracker{})
+					ents, _ := os.ReadDir(dx)
+					for _, e := range ents {
+						if strings.HasPrefix(e.Name(), ".") {
+							st += " +" + e.Name()
+						}
+					}
+					_ = os.RemoveAll(dx)
+					return st
+				}
+				rolledBack := runIn("ctl-exit", body+"EXIT;", nil)
+				committed := runIn("ctl-commit", body+"COMMIT;", nil)
+				signalled := runIn("sig", body+"COMMIT;", []string{"VERIF_SIGNAL_AT=" + spec})
+				if signalled != rolledBack && signalled != committed {
+					o.Law("commit_not_atomic_under_signal", map[string]interface{}{"program": body + "COMMIT;", "signal_at": spec, "after_signal": signalled, "if_rolled_back": rolledBack, "if_committed": committed})
+				}
+				o.Eval()
+				o.Count("process_runs:interrupt-in-finalisation")
+				o.Count("finalisation_point:" + pt)
+				for _, f := range sourced {
+					_ = os.Remove(filepath.Join(d2, f))
+				}
+				_ = os.RemoveAll(d2)
+				pr.Close()
+				_ = os.RemoveAll(d)
+				return
+			}
 			if how == "interrupt-in-commit" {
 				// the k-th table being encoded: created tables are encoded first, then updated ones, so k > 1
 				// interrupts the commit after some tables were already encoded (none may be published)
